@@ -49,7 +49,7 @@ class StreamErrorProtocolEntity(ProtocolEntity):
         return out
 
     def toProtocolTreeNode(self):
-        node = super(StreamErrorProtocolEntity, self).toProtocolTreeNode()
+        node = self._createProtocolTreeNode({})
         type = self.getErrorType()
         node.addChild(ProtocolTreeNode(type))
         if type == self.__class__.TYPE_CONFLICT and "text" in self.data:
